@@ -71,7 +71,7 @@ def float_literal(r):
     nd = r.choice([1, 1, 2, 3, 5, 7, 9, 15])
     digits = "".join(r.choice("0123456789") for _ in range(nd)).lstrip("0") or r.choice("0123456789")
     if r.random() < 0.3:
-        digits = r.choice(["1", "2", "5", "10", "25", "125", "3", "16777217", "0", "4294967296", "9007199254740993"])
+        digits = r.choice(["1", "2", "5", "10", "25", "125", "3", "16777217", "0", "4294967296", "9007199254740991"])
     if r.random() < 0.15:
         digits = "0" + digits          # leading zero as in 0.5 / 00.5 once split
     split = r.randint(0, len(digits))
